@@ -12,7 +12,7 @@ from ..flow import Flow
 from ..paths import enumerate_paths
 from .c15_util import (MINTRO, BACKENDS, NINJA, MSETUP, MTEST, MINSTALL, OPTIONS, INTERP, IDEDOC, FuncNode, Locals, params, param,
                        intro_table, intro_func, method_calls, recv, is_call_on, dict_entries, subscript_stores, attrs_of,
-                       const_strs, embedded_calls, path_term, eval_term, fmt_term, Term, parents, bind_args, judge)
+                       const_strs, embedded_calls, path_term, eval_term, fmt_term, Term, parents, bind_args, judge, normal_func, fold_template)
 
 EXPLANATION = (
     'Decides structural clauses of C15: the meson-info files and the files the other tools consume are projections of the same '
@@ -42,7 +42,7 @@ TECHNIQUE = ('def-use origin sets (single source of truth, sibling field agreeme
 
 def r4(ctx: RuleCtx) -> None:
     mod = ctx.repo.module(MSETUP)
-    fn = mod.func('MesonApp._generate')
+    fn = normal_func(mod, 'MesonApp._generate')
     imps = mod.imports()
     cfg = CFG(fn)
     gen_nodes, intro_nodes = [], []
@@ -304,7 +304,7 @@ def r3(ctx: RuleCtx) -> None:
         return
     if not (isinstance(outdir, ast.Call) and isinstance(outdir.func, ast.Name) and mod.has_func(outdir.func.id)):
         raise Undecided(f'{qn}: output directory expression not understood: {short(outdir)}')
-    mfn = mod.func(outdir.func.id)
+    mfn = normal_func(mod, outdir.func.id, inline=0)
     bind = {p: _inline(loc, a) for p, a in bind_args(outdir, mfn).items()}
     defaults = mfn.args.defaults
     for p_, d_ in zip(params(mfn)[len(params(mfn)) - len(defaults):], defaults):
@@ -313,7 +313,7 @@ def r3(ctx: RuleCtx) -> None:
         raise Undecided(f'{qn}: call of {mfn.name} does not bind {sorted(set(params(mfn)) - set(bind))}')
     _check_builddir_model(ctx)
     mrows = _dir_table(mfn, bind, {tvar}, mfn.name)
-    brows = _dir_table(bfn, {}, {btp}, bqn)
+    brows = _dir_table(normal_func(bmod, bqn, fn=bfn, inline=0), {}, {btp}, bqn)
     choices = _layout_choices(ctx)
     ctx.note(f'{mfn.name}: {len(mrows)} paths; {bqn}: {len(brows)} paths; layout choices {choices}; run targets exempt (no output file)')
     n = 0
@@ -364,48 +364,57 @@ def _only_stmt_call(fn: FuncNode, qn: str) -> ast.Call:
 
 
 def _pickled_test_getters(ctx: RuleCtx) -> T.Dict[str, T.Tuple[str, str]]:
-    """data file name -> (Build getter whose tests are pickled into it, writer method)."""
+    """data file name -> (Build getter whose tests are pickled into it, where).  Works on the normal form of serialize_tests, in which the
+    writer wrappers (write_test_file -> write_test_serialisation) are inlined."""
     m, qn, ser = _resolved_method(ctx, 'serialize_tests')
+    ser = normal_func(m, qn, fn=ser)
     out: T.Dict[str, T.Tuple[str, str]] = {}
     loc = Locals(ser)
+    _, _, cts = _resolved_method(ctx, 'create_test_serialisation')
     for w in [n for n in ast.walk(ser) if isinstance(n, ast.With)]:
         if len(w.items) != 1 or not isinstance(w.items[0].optional_vars, ast.Name):
             raise Undecided(f'{qn}: with-statement not understood: {short(w)}')
         op = w.items[0].context_expr
         if not (isinstance(op, ast.Call) and call_method(op) == 'open' and op.args):
             raise Undecided(f'{qn}: {short(op)} is not open(...)')
-        names = [x for x in const_strs(loc.resolve(op.args[0])) if x.endswith('.dat')]
+        names = [x for x in _const_strings(ctx, m, _inline(loc, op.args[0])) if x.endswith('.dat')]
         fvar = w.items[0].optional_vars.id
-        calls = [c for st in w.body for c in walk_no_nested(st) if isinstance(c, ast.Call) and recv(c) == 'self']
-        if len(names) != 1 or len(calls) != 1 or [norm(a) for a in calls[0].args] != [fvar]:
-            raise Undecided(f'{qn}: cannot pair data file and writer in {short(w)}')
-        wm, wqn, wfn = _resolved_method(ctx, call_method(calls[0]) or '')
-        c = _only_stmt_call(wfn, wqn)
-        if recv(c) != 'self':
-            raise Undecided(f'{wqn}: not self.<pickler>(<tests>, datafile): {short(c)}')
-        pm, pqn, pfn = _resolved_method(ctx, call_method(c) or '')
-        cb = bind_args(c, pfn)
-        pt, pf = param(pfn, 0, pqn), param(pfn, 1, pqn)
-        if pt not in cb or pf not in cb or norm(cb[pf]) != param(wfn, 0, wqn):
-            raise Undecided(f'{wqn}: not self.<pickler>(<tests>, datafile): {short(c)}')
-        getter = cb[pt]
-        if not (isinstance(getter, ast.Call) and recv(getter) == 'self.build' and not getter.args):
-            raise Undecided(f'{wqn}: test list is not self.build.<getter>(): {short(getter)}')
-        dumps = [d for d in method_calls(pfn, 'dump') if recv(d) == 'pickle']
-        ploc = Locals(pfn)
+        dumps = [c for st in w.body for c in ast.walk(st) if isinstance(c, ast.Call) and call_method(c) == 'dump' and recv(c) == 'pickle']
+        if len(names) != 1 or len(dumps) != 1:
+            raise Undecided(f'{qn}: cannot pair data file and pickled object in {short(w)}')
+        db = bind_args(dumps[0], None, ['obj', 'file'])
+        if 'obj' not in db or 'file' not in db or norm(_inline(loc, db['file'])) != fvar:
+            raise Undecided(f'{qn}: pickle.dump call not understood: {short(dumps[0])}')
+        obj = _inline(loc, db['obj'])
         ok = positive = False
-        if len(dumps) == 1:
-            db = bind_args(dumps[0], None, ['obj', 'file'])
-            obj = _inline(ploc, db['obj']) if 'obj' in db else None
-            if obj is not None and 'file' in db and norm(db['file']) == pf and is_call_on(obj, 'self', 'create_test_serialisation'):
-                _, _, cts = _resolved_method(ctx, 'create_test_serialisation')
-                ab = bind_args(obj, cts)  # type: ignore[arg-type]
-                a0 = ab.get(param(cts, 0, 'create_test_serialisation'))
-                ok = a0 is not None and norm(a0) == pt
-                positive = a0 is not None and not ok      # a different (filtered, re-ordered, other) list is pickled
-        judge(ctx, ok, f'{pqn} pickles self.create_test_serialisation(<its test list>) into its data file ({names[0]} via {wqn})', positive, pm, pqn, pfn,
-              f'{pqn} does not pickle exactly self.create_test_serialisation({pt}): mtest and intro-tests.json no longer share a producer')
-        out[names[0]] = (call_method(getter) or '', wqn)
+        getter = ''
+        if is_call_on(obj, 'self', 'create_test_serialisation'):
+            a0 = bind_args(obj, cts).get(param(cts, 0, 'create_test_serialisation'))  # type: ignore[arg-type]
+            if a0 is not None:
+                a0 = _inline(loc, a0)
+                if isinstance(a0, ast.Call) and recv(a0) == 'self.build' and not a0.args and not a0.keywords:
+                    ok, getter = True, call_method(a0) or ''
+                else:
+                    positive = True          # a filtered / re-ordered / other list is pickled
+        judge(ctx, ok, f'{qn}: {names[0]} receives pickle.dump(self.create_test_serialisation(self.build.{getter}()))', positive, m, qn, dumps[0],
+              f'{names[0]} does not receive the serialisation of a Build test list as such: `{short(obj, 120)}`; mtest and intro-tests.json no longer share a producer', dumps[0])
+        if ok:
+            out[names[0]] = (getter, qn)
+    return out
+
+
+def _const_strings(ctx: RuleCtx, mod: Module, e: ast.AST) -> T.List[str]:
+    """String constants an expression is made of; names of module/class constants are folded (a literal hoisted into a constant)."""
+    from ..consteval import fold_expr
+    out = list(const_strs(e))
+    for n in ast.walk(e):
+        if isinstance(n, (ast.Name, ast.Attribute)) and (isinstance(n, ast.Name) or attr_chain(n) is not None):
+            try:
+                v = fold_expr(ctx.repo, mod, n)
+            except Exception:
+                continue
+            if isinstance(v, str):
+                out.append(v)
     return out
 
 
@@ -413,13 +422,29 @@ def _mtest_files(ctx: RuleCtx) -> T.Dict[bool, str]:
     """benchmark mode -> data file mtest loads."""
     mod = ctx.repo.module(MTEST)
     out: T.Dict[bool, str] = {}
-    users = [f for q, f in mod.funcs().items() if q.count('.') <= 1 and any(recv(c) == 'self' for c in method_calls(f, 'load_tests', nested=False))]
+    users = [normal_func(mod, q, inline=0) for q, f in mod.funcs().items() if q.count('.') <= 1 and any(recv(c) == 'self' for c in method_calls(f, 'load_tests', nested=False))]
     pm: T.Dict[ast.AST, ast.AST] = {}
     for f in users:
         pm.update(parents(f))
-    for c in [c for f in users for c in method_calls(f, 'load_tests', nested=False)]:
-        if recv(c) != 'self' or len(c.args) != 1 or not isinstance(c.args[0], ast.Constant):
-            raise Undecided(f'mtest: load_tests call with a non-literal file: {short(c)}')
+    sites: T.List[T.Tuple[ast.AST, ast.AST]] = []       # (node whose guards give the mode, file name expression)
+    for f in users:
+        floc = Locals(f)
+        for c in method_calls(f, 'load_tests', nested=False):
+            if recv(c) != 'self':
+                continue
+            a_ = bind_args(c, mod.func('TestHarness.load_tests')).get(param(mod.func('TestHarness.load_tests'), 0, 'load_tests'))
+            if a_ is None:
+                raise Undecided(f'mtest: load_tests call without a file: {short(c)}')
+            if isinstance(a_, ast.Name) and len(floc.defs.get(a_.id, [])) > 1 and all(d is not None for d in floc.defs[a_.id]):
+                for st_ in ast.walk(f):          # the file name is chosen per branch, the load is common
+                    if isinstance(st_, (ast.Assign, ast.AnnAssign)) and getattr(st_, 'value', None) in floc.defs[a_.id]:
+                        sites.append((st_, st_.value))
+            else:
+                sites.append((c, _inline(floc, a_)))
+    for c, fexpr in sites:
+        names_ = _const_strings(ctx, mod, fexpr)
+        if len(names_) != 1:
+            raise Undecided(f'mtest: load_tests call with a non-literal file: {short(fexpr)}')
         node: ast.AST = c
         mode: T.Optional[bool] = None
         while node in pm:
@@ -436,7 +461,7 @@ def _mtest_files(ctx: RuleCtx) -> T.Dict[bool, str]:
             node = par
         if mode is None or mode in out:
             raise Undecided(f'mtest: cannot tell for which mode {short(c)} is loaded')
-        out[mode] = c.args[0].value
+        out[mode] = names_[0]
     lt = mod.func('TestHarness.load_tests')
     loads = [l for l in method_calls(lt, 'load') if recv(l) == 'pickle']
     fl = Flow(lt)
@@ -522,13 +547,14 @@ def r1b(ctx: RuleCtx) -> None:
     mod = ctx.repo.module(MINTRO)
     # producer side
     m, qn, cf = _resolved_method(ctx, 'create_install_data_files')
+    cf = normal_func(m, qn, fn=cf)
     dumps = [d for d in method_calls(cf, 'dump') if recv(d) == 'pickle']
     loc = Locals(cf)
     files: T.List[str] = []
     for w in [n for n in ast.walk(cf) if isinstance(n, ast.With)]:
         op = w.items[0].context_expr
         if isinstance(op, ast.Call) and call_method(op) == 'open' and op.args:
-            files += [x for x in const_strs(loc.resolve(op.args[0])) if x.endswith('.dat')]
+            files += [x for x in _const_strings(ctx, m, _inline(loc, op.args[0])) if x.endswith('.dat')]
     obj = None
     if len(dumps) == 1:
         db = bind_args(dumps[0], None, ['obj', 'file'])
@@ -565,7 +591,7 @@ def r1b(ctx: RuleCtx) -> None:
     # introspection side
     n_inst = 0
     for kind in ('installed', 'install_plan', 'targets'):
-        fn = intro_func(mod, kind)
+        fn = normal_func(mod, intro_func(mod, kind).name)
         fq = fn.name
         pb, pk = param(fn, 1, fq), param(fn, 2, fq)
         var, calls = _install_source(ctx, fn, fq, pk)
@@ -693,6 +719,8 @@ def r1c(ctx: RuleCtx) -> None:
             if isinstance(n, ast.Subscript) and attr_chain(n.value) == f'self.{STORE}':
                 nkeys += 1
                 kk = _key_is_target_id(m, n.slice)
+                if kk is None and name == rd.name and norm(n.slice) == p0:
+                    kk = True          # the reader is handed the id itself
                 judge(ctx, kk is True, f'NinjaBackend.{name}: self.{STORE}[{short(n.slice)}] is keyed by <target>.get_id()', kk is False, nmod,
                       f'NinjaBackend.{name}', n, f'the per-target store is indexed by `{short(n.slice)}`, not by the id of the target being generated; '
                       'list_targets looks it up by the id key of Build.targets')
@@ -748,38 +776,71 @@ def r1c(ctx: RuleCtx) -> None:
     judge(ctx, ok, 'Interpreter.add_target registers every target under target.get_id()', kk is False, imod, 'Interpreter.add_target', st[0] if st else at,
           'Build.targets is not keyed by the id of the registered target')
     # compile statements record the source they consume
-    gsc = nmod.func('NinjaBackend.generate_single_compile')
+    gsc = normal_func(nmod, 'NinjaBackend.generate_single_compile')
     src, isgen = param(gsc, 1, 'generate_single_compile'), param(gsc, 2, 'generate_single_compile')
     pm = parents(gsc)
+    gloc = Locals(gsc)
     from ..tables import canon
+
+    def isgen_value(test: ast.AST, in_body: bool) -> T.Optional[bool]:
+        """Value of the is_generated flag implied by being in this branch of `test` (None: the test is about something else)."""
+        a, v = canon(test, in_body)
+        if a.kind == 'is' and a.args == (isgen, 'False'):
+            return not v
+        if a.kind == 'is' and a.args == (isgen, 'True'):
+            return v
+        if a.kind == 'truth' and a.args == (isgen,):
+            return v
+        if a.kind == 'cmp' and a.args[0] == 'eq' and set(a.args[1:]) == {isgen, 'False'}:
+            return not v
+        if a.kind == 'cmp' and a.args[0] == 'eq' and set(a.args[1:]) == {isgen, 'True'}:
+            return v
+        return None
+
+    def guard(node: ast.AST) -> T.Optional[bool]:
+        cur = node
+        while cur in pm and cur is not gsc:
+            par = pm[cur]
+            if isinstance(par, ast.If) and (cur in par.body or cur in par.orelse):
+                g = isgen_value(par.test, cur in par.body)
+                if g is not None:
+                    return g
+            cur = par
+        return None
+
+    def under(e: ast.AST, w: bool, depth: int = 4) -> ast.AST:
+        """The expression as it is when is_generated == w: locals defined per branch and conditional expressions on the flag resolved."""
+        if depth <= 0:
+            return e
+        if isinstance(e, ast.IfExp):
+            g = isgen_value(e.test, True)
+            if g is not None:
+                return under(e.body if g == w else e.orelse, w, depth - 1)
+        if isinstance(e, ast.Name) and e.id not in params(gsc):
+            ds = [d for d in gloc.defs.get(e.id, [])]
+            if ds and all(d is not None for d in ds):
+                live = []
+                for st in ast.walk(gsc):
+                    if isinstance(st, (ast.Assign, ast.AnnAssign)) and getattr(st, 'value', None) in ds:
+                        g = guard(st)
+                        if g is None or g == w:
+                            live.append(st.value)
+                if len(live) == 1:
+                    return under(live[0], w, depth - 1)
+        return e
     rec = method_calls(gsc, 'create_target_source_introspection', nested=False)
     seen: T.Set[bool] = set()
     sig = params(nmod.func('NinjaBackend.create_target_source_introspection'))
     for c in rec:
-        args = {sig[i]: a for i, a in enumerate(c.args) if i < len(sig)}
-        args.update({k.arg: k.value for k in c.keywords if k.arg})
-        node: ast.AST = c
-        generated: T.Optional[bool] = None
-        while node in pm and node is not gsc:
-            par = pm[node]
-            if isinstance(par, ast.If) and (node in par.body or node in par.orelse):
-                a, v = canon(par.test, node in par.body)
-                if a.kind == 'is' and a.args == (isgen, 'False'):
-                    generated = not v
-                elif a.kind == 'is' and a.args == (isgen, 'True'):
-                    generated = v
-                elif a.kind == 'truth' and a.args == (isgen,):
-                    generated = v
-                if generated is not None:
-                    break
-            node = par
-        if generated is None:
-            raise Undecided(f'generate_single_compile: cannot tell under which value of {isgen} `{short(c)}` runs')
-        seen.add(generated)
-        want = {'sources': '[]' if generated else f'[{src}]', 'generated_sources': f'[{src}]' if generated else '[]'}
-        got = {k: norm(args[k]) if k in args else '<missing>' for k in want}
-        ctx.require(got == want, f'generate_single_compile ({isgen}={generated}): records {want}', nmod, 'NinjaBackend.generate_single_compile', c,
-                    f'for {isgen}={generated} the compile statement of `{src}` is recorded as {got}; expected {want}')
+        args = bind_args(c, None, sig)
+        gc = guard(c)
+        for generated in ([gc] if gc is not None else [False, True]):
+            seen.add(generated)
+            want = {'sources': '[]' if generated else f'[{src}]', 'generated_sources': f'[{src}]' if generated else '[]'}
+            got = {k: norm(under(args[k], generated)) if k in args else '<missing>' for k in want}
+            shapes_ok = all(v in ('[]', f'[{src}]') for v in got.values())
+            judge(ctx, got == want, f'generate_single_compile ({isgen}={generated}): records {want}', shapes_ok, nmod, 'NinjaBackend.generate_single_compile',
+                  f'{isgen}={generated}: {short(c, 90)}', f'for {isgen}={generated} the compile statement of `{src}` is recorded as {got}; expected {want}', c)
     cfg = CFG(gsc)
     rec_nodes = cfg.nodes_with_call(lambda c: call_method(c) == 'create_target_source_introspection')
     fls = Flow(gsc, nested=False)
@@ -792,7 +853,7 @@ def r1c(ctx: RuleCtx) -> None:
     if seen != {True, False}:
         raise Undecided(f'generate_single_compile: introspection recorded only for {isgen} in {sorted(seen)}')
     allrec = [c for name, m in nmod.methods('NinjaBackend').items() for c in method_calls(m, 'create_target_source_introspection', nested=False)]
-    ctx.floor('create_target_source_introspection call sites', len(allrec), 7)
+    ctx.floor('create_target_source_introspection call sites', len(allrec), 5)
     bad = [c for c in allrec if not (c.args and isinstance(c.args[0], ast.Name))]
     ctx.require(not bad, f'{len(allrec)} recording sites pass the target being generated', nmod, 'NinjaBackend', bad[0] if bad else 'sites', 'a recording site does not name a target')
 
@@ -903,6 +964,23 @@ def r1d(ctx: RuleCtx) -> None:
     other_attr = sorted(o for o in eo if o.startswith('attr:') and o.count('.') == 1 and o.split('.')[1] in ('default', 'description', 'name', 'choices', 'parent'))
     judge(ctx, cur, f'{pq}: emitted "value" is the current value of the option (`{short(val)}`)', bool(other_attr), mod, pq, val,
           f'"value" is `{short(val)}`: it reads {other_attr} instead of the option object\'s .value / a resolver result, so it is not what get_option() returned')
+    # the resolver may return several attribute paths of the option object (its own value, the parent's value of a yielding option ...)
+    rfn = omod.func(f'OptionStore.{resolver}')
+    rfl = Flow(rfn, nested=False)
+    rps = set(params(rfn)) | {'self'}
+    res_paths: T.Set[str] = set()
+    for r_ in walk_no_nested(rfn):
+        if isinstance(r_, ast.Return) and r_.value is not None:
+            for o in rfl.origins(r_.value):
+                if o.startswith('attr:') and o[5:].split('.')[0] not in rps and o.endswith('.value'):
+                    res_paths.add(o[5:].split('.', 1)[1])
+    got_paths = {o[5:].split('.', 1)[1] for o in eo if o.startswith('attr:') and o.endswith('.value') and '.' in o[5:] and not o.startswith(f'attr:{root}')}
+    uses_resolver = any(o in (f'call:{root}.{resolver}', f'call:{root}.get_value_for') for o in eo)
+    ctx.note(f'option-object value paths the resolver may return: {sorted(res_paths)}; read by the projection: {sorted(got_paths)}')
+    for pth_ in sorted(res_paths) if cur else []:
+        judge(ctx, uses_resolver or pth_ in got_paths, f'{pq}: emitted "value" can be the option object\'s `.{pth_}` like the resolver\'s result', cur and not handed, mod, pq,
+              f'value path .{pth_}', f'get_option() resolves through OptionStore.{resolver}, which may return the option object\'s `.{pth_}` '
+              f'(a yielding subproject option returns its parent\'s value); {pq} always emits `{short(val)}`, so intro-buildoptions.json shows a value get_option() did not return', val)
     if ef is proj:
         ok = any(o.startswith(f'attr:{root}') or o.startswith(f'call:{root}') for o in eo)
         judge(ctx, ok, f'{pq}: emitted value derives from {root}', False, mod, pq, val, f'the emitted value `{short(val)}` does not derive from {root}')
@@ -983,7 +1061,7 @@ def r1e(ctx: RuleCtx) -> None:
                 ok = False
     ctx.require(ok, f'only kinds without producer are skipped ({npaths} paths through the dispatch loop)', mod, gen.name, loops[0].iter,
                 'a kind that has a producer can be skipped at configure time: its intro file keeps describing an older configuration')
-    wi = mod.func('write_intro_info')
+    wi = normal_func(mod, 'write_intro_info')
     w = [c for c in ast.walk(gen) if isinstance(c, ast.Call) and isinstance(c.func, ast.Name) and c.func.id == 'write_intro_info']
     ok = positive = False
     if len(w) == 1:
@@ -1010,7 +1088,9 @@ def r1e(ctx: RuleCtx) -> None:
         dd = [v for v in wloc.defs.get(norm(dst), []) if v is not None]
         if len(dd) == 1 and isinstance(dd[0], ast.Call) and call_method(dd[0]) == 'join' and len(dd[0].args) == 2 and norm(dd[0].args[0]) == param(wi, 1, 'write_intro_info'):
             try:
-                folded = fold_expr(ctx.repo, mod, dd[0].args[1], env={kv: 'KIND'})
+                folded = fold_template(_inline(wloc, dd[0].args[1]), kv)
+                if folded is None:
+                    folded = fold_expr(ctx.repo, mod, dd[0].args[1], env={kv: 'KIND'})
                 okn = folded == 'intro-KIND.json'
             except Undecided:
                 okn = False
@@ -1166,9 +1246,18 @@ def r2a(ctx: RuleCtx) -> None:
         if isinstance(tg, ast.Name) and isinstance(getattr(st, 'value', None), (ast.Dict, ast.DictComp)) or \
                 (isinstance(tg, ast.Name) and isinstance(getattr(st, 'value', None), ast.Call) and call_method(st.value) == 'dict'):
             dvars.add(tg.id)
-    app = [c for c in method_calls(loops[0], 'append') if c.args and (norm(c.args[0]) in dvars or isinstance(c.args[0], ast.Dict))]
+    def is_entry(e: ast.AST) -> bool:
+        return norm(e) in dvars or isinstance(e, ast.Dict)
+    app: T.List[ast.AST] = [c for c in method_calls(loops[0], 'append') if c.args and is_entry(c.args[0])]
+    app += [c for c in method_calls(loops[0], 'extend') if len(c.args) == 1 and isinstance(c.args[0], (ast.List, ast.Tuple)) and len(c.args[0].elts) == 1 and is_entry(c.args[0].elts[0])]
+    coll = [recv(c) for c in app]  # type: ignore[arg-type]
+    for a_ in ast.walk(loops[0]):
+        if isinstance(a_, ast.AugAssign) and isinstance(a_.op, ast.Add) and isinstance(a_.target, ast.Name) and isinstance(a_.value, (ast.List, ast.Tuple)) \
+                and len(a_.value.elts) == 1 and is_entry(a_.value.elts[0]):
+            app.append(a_)
+            coll.append(a_.target.id)
     rets = [r for r in pf.body if isinstance(r, ast.Return)]
-    ok = len(app) == 1 and len(rets) == 1 and recv(app[0]) == norm(rets[0].value)
+    ok = len(app) == 1 and len(rets) == 1 and coll[0] == norm(rets[0].value)
     if not ok:
         # the per-key obligations below are what matters; an unfamiliar way of collecting the entries is not a defect
         raise Undecided(f'{pq}: cannot see one entry per serialisation being appended to the returned list')
@@ -1188,7 +1277,7 @@ def r2a(ctx: RuleCtx) -> None:
     # closed world: neither the serialisation nor the entry is handed to a helper, and the entry is not built by update()/dict(**...)
     closed = True
     for c in ast.walk(loops[0]):
-        if isinstance(c, ast.Call) and c not in app:
+        if isinstance(c, ast.Call) and c not in app and not any(c is x for a2 in app for x in ast.walk(a2)):
             argn = {a.id for a in list(c.args) + [k.value for k in c.keywords] if isinstance(a, ast.Name)}
             if (argn & ({tv} | dvars)) and call_method(c) not in ('isinstance', 'str', 'len'):
                 closed = False
@@ -1246,21 +1335,44 @@ def r2b(ctx: RuleCtx) -> None:
     lists = _install_lists(ctx)
     # every per-kind installer consults should_install for each element
     n_inst = 0
-    for name, m in imod.methods('Installer').items():
+    for name in imod.methods('Installer'):
+        m = normal_func(imod, f'Installer.{name}')
         for l in walk_no_nested(m):
-            if isinstance(l, ast.For) and isinstance(l.iter, ast.Attribute) and l.iter.attr in lists and isinstance(l.target, ast.Name):
+            if isinstance(l, ast.For) and isinstance(l.iter, ast.Attribute) and l.iter.attr in lists and isinstance(l.target, ast.Name) and '__i' not in l.target.id:
                 n_inst += 1
                 asks = [c for c in method_calls(l, 'should_install', nested=False) if recv(c) == 'self' and l.target.id in [norm(a) for a in list(c.args) + [k.value for k in c.keywords]]]
                 handed = [c for c in walk_no_nested(l) if isinstance(c, ast.Call) and recv(c) == 'self' and call_method(c) != 'should_install'
                           and any(isinstance(a, ast.Name) and a.id == l.target.id for a in list(c.args) + [k.value for k in c.keywords])]
-                first = l.body[0] if l.body else None
-                ok = isinstance(first, ast.If) and norm(first.test) == f'not self.should_install({l.target.id})' and isinstance(first.body[0], ast.Continue)
+                # every path through the loop body that does anything with the element has seen should_install(element) come out true first
+                ok = bool(asks)
+                try:
+                    body_paths = enumerate_paths(l.body, pure={'should_install'})
+                except Undecided:
+                    body_paths = []
+                    ok = False
+                for pth in body_paths:
+                    passed = False
+                    for ev in pth.events:
+                        if ev.kind == 'cond':
+                            t_ = ev.node
+                            if isinstance(t_, ast.Call) and t_ in asks:
+                                if ev.val:
+                                    passed = True
+                                else:
+                                    break          # rejected element: the rest of the path is the skip
+                        elif ev.kind in ('stmt', 'iter', 'with') and ev.node is not None and not passed:
+                            touching = [c for c in ast.walk(ev.node) if isinstance(c, ast.Call) and c not in asks
+                                        and any(isinstance(x, ast.Name) and x.id == l.target.id for a_ in list(c.args) + [k.value for k in c.keywords] for x in ast.walk(a_))]
+                            if touching:
+                                ok = False
+                if asks and not ok and not body_paths:
+                    raise Undecided(f'Installer.{name}: should_install({l.target.id}) is consulted but the loop body could not be enumerated')
                 if asks and not ok:
-                    raise Undecided(f'Installer.{name}: should_install({l.target.id}) is consulted but not as the leading `if not ...: continue` guard')
+                    handed = []         # a visible path works on the element before the filter said yes: positive evidence
                 judge(ctx, ok, f'Installer.{name}: elements of {l.iter.attr} are filtered by should_install', not handed, imod, f'Installer.{name}', l.iter,
                             f'Installer.{name} installs {l.iter.attr} without asking should_install first: tag/subproject in the plan would not predict what is installed', l)
     ctx.floor('per-kind installer loops', n_inst, 7)
-    fn = intro_func(mod, 'install_plan')
+    fn = normal_func(mod, intro_func(mod, 'install_plan').name)
     qn = fn.name
     var, calls = _install_source(ctx, fn, qn, param(fn, 2, qn))
     if var is None:
@@ -1296,7 +1408,7 @@ def r2b(ctx: RuleCtx) -> None:
             ctx.require(ok, f'{qn}: entry of `{ev}` reports "{f}" from {ev}.{f} (the field should_install tests)', mod, qn, val if val is not None else d,
                         f'`meson install --tags/--skip-subprojects` filters on .{f}; the plan entry built from `{ev}` reports {short(val) if val is not None else "nothing"} as "{f}"')
     for kind in ('install_plan', 'installed'):
-        f2 = intro_func(mod, kind)
+        f2 = normal_func(mod, intro_func(mod, kind).name)
         v2, _ = _install_source(ctx, f2, f2.name, param(f2, 2, f2.name))
         if v2 is None:
             raise Undecided(f'{f2.name}: install data variable not found')
@@ -1323,7 +1435,8 @@ def r2c(ctx: RuleCtx) -> None:
     imod = ctx.repo.module(MINSTALL)
     lists = _install_lists(ctx)
     inst: T.Dict[str, T.Tuple[T.Any, T.Any, str]] = {}
-    for name, m in imod.methods('Installer').items():
+    for name in imod.methods('Installer'):
+        m = normal_func(imod, f'Installer.{name}')
         loops = [l for l in walk_no_nested(m) if isinstance(l, ast.For) and isinstance(l.iter, ast.Attribute) and l.iter.attr in lists and isinstance(l.target, ast.Name)]
         if len(loops) != 1:
             continue
@@ -1345,7 +1458,7 @@ def r2c(ctx: RuleCtx) -> None:
                 base = base or b
         if n:
             inst[l.iter.attr] = (frozenset(srcs), (frozenset(dsts - srcs), base), f'Installer.{name}')
-    fn = intro_func(mod, 'installed')
+    fn = normal_func(mod, intro_func(mod, 'installed').name)
     qn = fn.name
     var, _ = _install_source(ctx, fn, qn, param(fn, 2, qn))
     fl = Flow(fn)
@@ -1407,7 +1520,7 @@ def _containment_kind(e: ast.AST, loc: Locals) -> T.Optional[str]:
 
 def r5(ctx: RuleCtx) -> None:
     imod = ctx.repo.module(INTERP)
-    fn = imod.func('Interpreter.add_build_def_file')
+    fn = normal_func(imod, 'Interpreter.add_build_def_file')
     qn = 'Interpreter.add_build_def_file'
     p0 = param(fn, 0, qn)
     loc = Locals(fn)
@@ -1499,6 +1612,7 @@ def r2d(ctx: RuleCtx) -> None:
     n_ctor = 0
     for name in producers:
         bm, qn, fn = _resolved_method(ctx, name)
+        fn = normal_func(bm, qn, fn=fn)
         pm = parents(fn)
         # per constructor call: innermost enclosing loop (if nested in another loop) -> per-file variables
         leafvars: T.Dict[int, T.Set[str]] = {}
@@ -1643,6 +1757,12 @@ def _relation(fn: FuncNode, pm: T.Dict[ast.AST, ast.AST], recorded: str, consume
     """How the recorded list relates to a consumed one: same | co-filled | transformed | filtered | unknown."""
     if recorded in consumed:
         return 'same', recorded
+    # a single item handed in as a parameter and turned into the statement's input (relative path of the same file)
+    if recorded in params(fn):
+        fl = Flow(fn, nested=False)
+        for cname in sorted(consumed):
+            if f'param:{recorded}' in fl.origins(ast.Name(id=cname, ctx=ast.Load())):
+                return 'item', cname
     # co-filled: every fill of `recorded` sits in a block that also fills one consumed list
     fills = _fill_sites(fn, pm, recorded)
     if fills:
@@ -1685,12 +1805,12 @@ def r1f(ctx: RuleCtx) -> None:
     sig = params(nmod.func('NinjaBackend.create_target_source_introspection'))
     n = 0
     for name, m in sorted(nmod.methods('NinjaBackend').items()):
-        if name == 'generate_single_compile':
-            continue   # one source per call: decided by C15.R1c (record dominates the element, list chosen by is_generated)
         sites = method_calls(m, 'create_target_source_introspection', nested=False)
         if not sites:
             continue
         qn = f'NinjaBackend.{name}'
+        m = normal_func(nmod, qn, inline=0)
+        sites = method_calls(m, 'create_target_source_introspection', nested=False)
         pm = parents(m)
         loc = Locals(m)
         inputs, deps = _consumed_names(ctx, m, loc)
@@ -1704,6 +1824,17 @@ def r1f(ctx: RuleCtx) -> None:
                 if isinstance(e, (ast.List, ast.Tuple)) and not e.elts:
                     continue
                 leaves = [x.id for x in ast.walk(e) if isinstance(x, ast.Name)]
+                for _ in range(2):      # a local that is a list display in every branch stands for the names inside it
+                    nl: T.List[str] = []
+                    for lf in leaves:
+                        ds = loc.defs.get(lf, [])
+                        if lf not in params(m) and ds and all(isinstance(d, (ast.List, ast.Tuple)) and all(isinstance(x, ast.Name) for x in d.elts) for d in ds):
+                            nl += [x.id for d in ds for x in d.elts]  # type: ignore[union-attr]
+                        else:
+                            nl.append(lf)
+                    leaves = list(dict.fromkeys(nl))
+                if not leaves:
+                    continue
                 if not leaves or any(isinstance(x, ast.Call) for x in ast.walk(e)):
                     raise Undecided(f'{qn}: recorded {role} `{short(e)}` is not a plain list of locals')
                 for lf in leaves:
@@ -1762,6 +1893,7 @@ def _method_effect(ctx: RuleCtx, cmod: Module, cls: ast.ClassDef, meth: str, dep
 
 def r1g(ctx: RuleCtx) -> None:
     bm, qn, fn = _resolved_method(ctx, 'create_test_serialisation')
+    fn = normal_func(bm, qn, fn=fn)
     p0 = param(fn, 0, qn)
     loc = Locals(fn)
 
@@ -1831,6 +1963,9 @@ def r1g(ctx: RuleCtx) -> None:
 
     n = 0
     for c in ast.walk(loops[0]):
+        if isinstance(c, ast.AugAssign) and isinstance(c.target, ast.Name) and c.target.id in loc.aug:
+            c = ast.copy_location(ast.Call(func=ast.Attribute(value=ast.Name(id=c.target.id, ctx=ast.Load()), attr='extend', ctx=ast.Load()), args=[c.value], keywords=[]), c)
+            ast.fix_missing_locations(c)
         if not (isinstance(c, ast.Call) and isinstance(c.func, ast.Attribute)):
             continue
         rcv = c.func.value
@@ -1869,18 +2004,243 @@ def r1g(ctx: RuleCtx) -> None:
     ctx.floor('mutating calls on locals of create_test_serialisation', n, 6)
 
 
+# ---------------------------------------------------------------------------
+# R2e the targets recorded as a test's `depends` are targets the test prerequisite statement builds (sibling agreement, K8)
+
+TEST_SOURCES = {'exe': ('exe', 'get_exe'), 'cmd_args': ('cmd_args',), 'depends': ('depends',)}
+
+
+def _classes_accepted(pm: T.Dict[ast.AST, ast.AST], node: ast.AST, var: str, stop: ast.AST) -> T.Optional[T.FrozenSet[str]]:
+    """Target classes of `var` under which `node` executes: union of the isinstance class lists that guard it positively;
+    frozenset({'*'}) when no isinstance test on var restricts it (or it sits in the else of such tests); None when not understood."""
+    acc: T.Optional[T.Set[str]] = None
+    cur: ast.AST = node
+    while cur in pm and cur is not stop:
+        par = pm[cur]
+        if isinstance(par, ast.If) and (cur in par.body or cur in par.orelse):
+            t = par.test
+            neg = False
+            while isinstance(t, ast.UnaryOp) and isinstance(t.op, ast.Not):
+                t, neg = t.operand, not neg
+            if isinstance(t, ast.Call) and isinstance(t.func, ast.Name) and t.func.id == 'isinstance' and len(t.args) == 2 \
+                    and isinstance(t.args[0], ast.Name) and t.args[0].id == var:
+                inside = (cur in par.body) != neg
+                if inside:
+                    names = {(attr_chain(x) or '?').split('.')[-1] for x in (t.args[1].elts if isinstance(t.args[1], ast.Tuple) else [t.args[1]])}
+                    if '?' in names:
+                        return None
+                    acc = names if acc is None else (acc & names)
+                # the negative branch of an isinstance test does not restrict to a named class: handled by the caller through '*'
+            elif any(isinstance(x, ast.Name) and x.id == var for x in ast.walk(t)):
+                return None        # some other condition on the variable
+        cur = par
+    return frozenset(acc) if acc is not None else frozenset({'*'})
+
+
+def _role_of(fn: FuncNode, pm: T.Dict[ast.AST, ast.AST], loc: Locals, tv: str, name: str, node: ast.AST) -> T.Optional[str]:
+    """Which part of the test object `tv` the local `name` holds at `node`: exe | cmd_args | depends."""
+    cur: ast.AST = node
+    while cur in pm:
+        par = pm[cur]
+        if isinstance(par, (ast.For, ast.comprehension)) and isinstance(par.target, ast.Name) and par.target.id == name:
+            c = attr_chain(par.iter)
+            if c and c.split('.')[0] == tv and c.count('.') == 1:
+                for role, attrs in TEST_SOURCES.items():
+                    if c.split('.')[1] in attrs:
+                        return role
+            return None
+        cur = par
+    for d in loc.defs.get(name, []):
+        if d is None:
+            continue
+        e = d
+        if isinstance(e, ast.Call) and not e.args and isinstance(e.func, ast.Attribute):
+            e = e.func
+        c = attr_chain(e)
+        if c and c.split('.')[0] == tv and c.count('.') == 1 and c.split('.')[1] in TEST_SOURCES['exe']:
+            return 'exe'
+    return None
+
+
+def _target_classes(fn: FuncNode, tv_loop: ast.For, sinks: T.List[T.Tuple[ast.AST, ast.AST]], qn: str) -> T.Dict[str, T.Set[str]]:
+    """role -> classes of targets that reach a sink (`yield x` / `depends.add(x)`); `x.target` of an index counts as its class."""
+    pm = parents(fn)
+    loc = Locals(fn)
+    tv = tv_loop.target.id  # type: ignore[attr-defined]
+    out: T.Dict[str, T.Set[str]] = {}
+    for sink, val in sinks:
+        base = val
+        while isinstance(base, ast.Attribute):
+            base = base.value
+        if not isinstance(base, ast.Name):
+            raise Undecided(f'{qn}: value reaching the sink is not a local: {short(val)}')
+        role = _role_of(fn, pm, loc, tv, base.id, sink)
+        if role is None:
+            raise Undecided(f'{qn}: cannot tell which part of the test `{base.id}` comes from at `{short(sink)}`')
+        cls = _classes_accepted(pm, sink, base.id, tv_loop)
+        if cls is None:
+            raise Undecided(f'{qn}: guard of `{short(sink)}` not understood')
+        out.setdefault(role, set()).update(cls)
+        # unwrapping re-definitions of the same local: `if isinstance(v, K): v = v.attr` makes the value behind a K a candidate too
+        for d in ast.walk(tv_loop):
+            if isinstance(d, ast.Assign) and len(d.targets) == 1 and isinstance(d.targets[0], ast.Name) and d.targets[0].id == base.id \
+                    and isinstance(d.value, ast.Attribute) and isinstance(d.value.value, ast.Name) and d.value.value.id == base.id \
+                    and (d.lineno, d.col_offset) < (getattr(sink, 'lineno', 0), getattr(sink, 'col_offset', 0)):
+                g = _classes_accepted(pm, d, base.id, tv_loop)
+                if g is None or '*' in g:
+                    raise Undecided(f'{qn}: unwrapping `{short(d)}` is not guarded by an isinstance test on `{base.id}`')
+                for k in sorted(g):
+                    out.setdefault(f'{role} (the .{d.value.attr} of a {k})', set()).update(cls)
+    return out
+
+
+def r2e(ctx: RuleCtx) -> None:
+    bm, qn, fn = _resolved_method(ctx, 'create_test_serialisation')
+    p0 = param(fn, 0, qn)
+    loc = Locals(fn)
+    loops = [l for l in fn.body if isinstance(l, ast.For) and isinstance(l.target, ast.Name) and p0 in {x.id for x in ast.walk(_inline(loc, l.iter)) if isinstance(x, ast.Name)}]
+    if len(loops) != 1:
+        raise Undecided(f'{qn}: loop over the tests not found')
+    tv = loops[0].target.id
+    # the local that becomes TestSerialisation.depends
+    tsc = bm.cls('TestSerialisation')
+    fields = [st.target.id for st in tsc.body if isinstance(st, ast.AnnAssign) and isinstance(st.target, ast.Name)]
+    ctor = [c for c in ast.walk(loops[0]) if isinstance(c, ast.Call) and call_method(c) == 'TestSerialisation']
+    if len(ctor) != 1:
+        raise Undecided(f'{qn}: TestSerialisation(...) construction not found')
+    dep_arg = bind_args(ctor[0], None, fields).get('depends')
+    dep_names = {x.id for x in ast.walk(dep_arg) if isinstance(x, ast.Name) and x.id in loc.defs} if dep_arg is not None else set()
+    dep_names = {n for n in dep_names if any(isinstance(d, (ast.Call, ast.Set, ast.SetComp, ast.List, ast.ListComp)) for d in loc.defs.get(n, []) if d is not None)}
+    if len(dep_names) != 1:
+        raise Undecided(f'{qn}: cannot find the collection behind TestSerialisation.depends ({sorted(dep_names)})')
+    dv = next(iter(dep_names))
+    sinks: T.List[T.Tuple[ast.AST, ast.AST]] = []
+    recorded: T.Dict[str, T.Set[str]] = {}
+    for d in loc.defs.get(dv, []):
+        if d is None:
+            continue
+        for a in ast.walk(d):
+            c = attr_chain(a)
+            if c == f'{tv}.depends':
+                recorded.setdefault('depends', set()).add('*')
+    for c in ast.walk(loops[0]):
+        if isinstance(c, ast.Call) and isinstance(c.func, ast.Attribute) and isinstance(c.func.value, ast.Name) and c.func.value.id == dv \
+                and c.func.attr in ('add', 'append') and len(c.args) == 1:
+            sinks.append((c, c.args[0]))
+        elif isinstance(c, ast.Call) and isinstance(c.func, ast.Attribute) and isinstance(c.func.value, ast.Name) and c.func.value.id == dv \
+                and c.func.attr in ('update', 'extend', 'discard', 'remove', 'clear'):
+            raise Undecided(f'{qn}: `{short(c)}` fills the depends collection in a way this rule does not follow')
+    for role, cl in _target_classes(fn, loops[0], sinks, qn).items():
+        recorded.setdefault(role, set()).update(cl)
+    # the prerequisite statement: get_testlike_targets
+    gm, gqn, gfn = _resolved_method(ctx, 'get_testlike_targets')
+    gloops = [l for l in gfn.body if isinstance(l, ast.For) and isinstance(l.target, ast.Name)]
+    if len(gloops) != 1:
+        raise Undecided(f'{gqn}: loop over the tests not found')
+    ys = [(y, y.value) for y in ast.walk(gloops[0]) if isinstance(y, ast.Yield) and y.value is not None]
+    if not ys or any(isinstance(y, ast.YieldFrom) for y in ast.walk(gfn)):
+        raise Undecided(f'{gqn}: prerequisite targets are not produced by plain `yield` statements')
+    built = _target_classes(gfn, gloops[0], ys, gqn)
+    ctx.note(f'recorded as depends: { {k: sorted(v) for k, v in recorded.items()} }; built by the prerequisite statement: { {k: sorted(v) for k, v in built.items()} }')
+    n = 0
+    for role, cl in sorted(recorded.items()):
+        have = built.get(role, set())
+        n += 1
+        missing = sorted(cl - have) if '*' not in have else []
+        ctx.require(not missing, f'test {role}: every target class recorded in `depends` ({sorted(cl)}) is also built by {gqn}', gm, gqn,
+                    f'{role}: {", ".join(missing)}', f'{qn} records a {"/".join(missing)} found in the test\'s {role} as a dependency (intro-tests.json `depends`, used by '
+                    f'`meson test <name>`), but {gqn} — the prerequisite of a plain `meson test`/`ninja test` — yields only {sorted(have) or "nothing"} from '
+                    f'the test\'s {role}: that dependency is not brought up to date before the test runs', gfn)
+    ctx.floor('roles of a test that contribute dependencies', n, 3)
+
+
+# ---------------------------------------------------------------------------
+# R1h every per-source compile-statement builder whose object goes into the target's object list records its source (K8 siblings)
+
+def r1h(ctx: RuleCtx) -> None:
+    nmod = ctx.repo.module(NINJA)
+    gt = nmod.func('NinjaBackend.generate_target')
+    pm = parents(gt)
+    builders: T.Dict[str, ast.Call] = {}
+    for st in ast.walk(gt):
+        if isinstance(st, ast.Assign) and len(st.targets) == 1 and isinstance(st.targets[0], ast.Tuple) and len(st.targets[0].elts) == 2 \
+                and isinstance(st.targets[0].elts[0], ast.Name) and isinstance(st.value, ast.Call) and recv(st.value) == 'self':
+            obj = st.targets[0].elts[0].id
+            blk = pm.get(st)
+            sibs = [x for f in ('body', 'orelse') for x in (getattr(blk, f, None) or []) if isinstance(getattr(blk, f, None), list)]
+            if st in sibs and any(isinstance(c, ast.Call) and call_method(c) == 'append' and [norm(a) for a in c.args] == [obj]
+                                  for x in sibs[sibs.index(st):] for c in ast.walk(x)):
+                loopvars = {l.target.id for l in _enclosing(pm, st) if isinstance(l, ast.For) and isinstance(l.target, ast.Name)}
+                if any(isinstance(a_, ast.Name) and a_.id in loopvars for a_ in list(st.value.args) + [k.value for k in st.value.keywords]):
+                    builders.setdefault(call_method(st.value) or '', st.value)
+    ctx.floor('per-source object builders called by generate_target', len(builders), 2)
+    sig = params(nmod.func('NinjaBackend.create_target_source_introspection'))
+    for name, call in sorted(builders.items()):
+        bm, qn, fn = _resolved_method(ctx, name)
+        fn = normal_func(bm, qn, fn=fn)
+        ps = params(fn)
+        # the parameter that receives the source: bound from the loop variable of the enclosing source loop
+        src_params = [p_ for p_, a in bind_args(call, fn).items() if isinstance(a, ast.Name) and any(
+            isinstance(l, ast.For) and isinstance(l.target, ast.Name) and l.target.id == a.id for l in _enclosing(pm, call))]
+        if len(src_params) != 1:
+            raise Undecided(f'{qn}: cannot identify the source parameter at `{short(call)}`')
+        sp = src_params[0]
+        recs = method_calls(fn, 'create_target_source_introspection', nested=False)
+        fl = Flow(fn, nested=False)
+        good = []
+        for c in recs:
+            b = bind_args(c, None, sig)
+            vals = [b[k] for k in ('sources', 'generated_sources') if k in b]
+            if any(f'param:{sp}' in fl.origins(v) for v in vals):
+                good.append(c)
+        # closed world for the absence case: the source is not handed to another method that could record it
+        handed = [c for c in walk_no_nested(fn) if isinstance(c, ast.Call) and recv(c) == 'self' and call_method(c) != 'create_target_source_introspection'
+                  and any(f'param:{sp}' in fl.origins(a) for a in list(c.args) + [k.value for k in c.keywords])
+                  and _records_somewhere(ctx, call_method(c) or '')]
+        elems = [c for c in walk_no_nested(fn) if isinstance(c, ast.Call) and call_method(c) == 'NinjaBuildElement'
+                 and any(f'param:{sp}' in fl.origins(a) for a in c.args)]
+        judge(ctx, bool(good), f'{qn}: the source `{sp}` it compiles is recorded for target_sources ({len(good)} site(s))', bool(elems) and not recs and not handed,
+              bm, qn, elems[0] if elems else fn, f'{qn} emits a compile statement for `{sp}` ({short(elems[0], 70) if elems else "?"}) whose object generate_target links into the '
+              'target, but never records the source with create_target_source_introspection: the file is compiled yet missing from intro-targets.json target_sources',
+              elems[0] if elems else fn)
+        _ = ps
+
+
+def _enclosing(pm: T.Dict[ast.AST, ast.AST], n: ast.AST) -> T.List[ast.AST]:
+    out = []
+    while n in pm:
+        n = pm[n]
+        out.append(n)
+    return out
+
+
+def _records_somewhere(ctx: RuleCtx, meth: str, depth: int = 2) -> bool:
+    try:
+        _, _, fn = _resolved_method(ctx, meth)
+    except Undecided:
+        return True      # cannot see into it: assume it might
+    if method_calls(fn, 'create_target_source_introspection', nested=False):
+        return True
+    if depth <= 0:
+        return False
+    return any(_records_somewhere(ctx, call_method(c) or '', depth - 1) for c in walk_no_nested(fn)
+               if isinstance(c, ast.Call) and recv(c) == 'self' and (call_method(c) or '').startswith('generate_'))
+
+
 RULES = [
     Rule('C15.R1a', 'tests/benchmarks: the pickled serialisation is the introspected one', r1a),
     Rule('C15.R1b', 'install plan/installed/targets: install.dat and the JSON share create_install_data()', r1b),
     Rule('C15.R1c', 'target_sources come from the store the statement generators fill, keyed by target id', r1c),
     Rule('C15.R1f', 'recorded source lists are the lists the compile statement consumes (no unfiltered superset)', r1f),
     Rule('C15.R1g', 'create_test_serialisation (run for the pickle and again for the JSON) does not mutate the model', r1g),
+    Rule('C15.R1h', 'every per-source builder whose object is linked into the target records its source', r1h),
     Rule('C15.R1d', 'build options projection covers every value store of the get_option() resolver', r1d),
     Rule('C15.R1e', 'every documented intro file is produced from (coredata, build, backend); buildsystem_files = Build.def_files', r1e),
     Rule('C15.R2a', 'documented test keys are projected from the TestSerialisation fields mtest reads', r2a),
     Rule('C15.R2b', 'install plan reports the fields should_install filters on; five categories covered', r2b),
     Rule('C15.R2c', 'list_installed agrees with the per-kind installers on source and destination fields', r2c),
     Rule('C15.R2d', 'every install producer: install_path and install_path_name are joined from the same per-file components', r2d),
+    Rule('C15.R2e', 'every target class recorded as a test dependency is built by the test prerequisite statement', r2e),
     Rule('C15.R3', 'mintro and backend agree on the target output directory', r3),
     Rule('C15.R5', 'add_build_def_file rules out the build dir before testing the source dir on every recording path', r5),
     Rule('C15.R4', 'introspection generated only after backend.generate, same build/backend', r4),
